@@ -21,6 +21,7 @@
 (*   row  : index into Forms (0 = undefined encoding, -1 = fetch fault)    *)
 (*   pw   : TRUE iff a port DDR/DR register is written (peripheral side    *)
 (*          effects are specified by H8Port, not here)                     *)
+(*   sys  : "write" for the MES write system call (con = its bytes), else ""*)
 (***************************************************************************)
 EXTENDS H8Forms, H8Cost
 
@@ -67,7 +68,8 @@ IsMem(d) == d[1] \in MemKinds
 
 (* ---- result constructors -------------------------------------------------- *)
 Res(res, er, ccr, cm, pc, wr, cyc, con, row, pw) ==
-  [res |-> res, er |-> er, ccr |-> ccr, cm |-> cm, pc |-> pc, wr |-> wr, cyc |-> cyc, con |-> con, row |-> row, pw |-> pw]
+  [res |-> res, er |-> er, ccr |-> ccr, cm |-> cm, pc |-> pc, wr |-> wr, cyc |-> cyc, con |-> con, row |-> row, pw |-> pw, sys |-> ""]
+SysR(r, sys) == [r EXCEPT !.sys = sys]
 ErrR(s, row) == Res("err", s.er, s.ccr, 255, s.pc, {<<>>}, -1, <<>>, row, FALSE)
 AnyR(s, row) == Res("any", s.er, s.ccr, 255, s.pc, {<<>>}, -1, <<>>, row, FALSE)
 OkR(er, ccr, pc, wr, cyc, row) == Res("ok", er, ccr, 255, pc, {wr}, cyc, <<>>, row, \E i \in 1..Len(wr) : IsPortReg(wr[i][1]))
@@ -340,7 +342,7 @@ Exec(s, ri, ws) ==
                       ELSE IF ~CanAccess(ba, ln[2]) THEN ErrR(s, ri)
                       ELSE LET bytes == [i \in 1..ln[2] |-> Rd(s.mem, ba + i - 1)]
                            IN IF ~IsUtf8(bytes) THEN AnyR(s, ri)
-                              ELSE Res("ok", s.er, s.ccr, 255, npc, {<<>>}, -1, bytes, ri, FALSE)
+                              ELSE SysR(Res("ok", s.er, s.ccr, 255, npc, {<<>>}, -1, bytes, ri, FALSE), "write")
             ELSE IF id = <<0, 113>> THEN
               IF ap[1] >= 256 THEN AnyR(s, ri)
               ELSE IF ~CanAccess(apa, 8) THEN ErrR(s, ri)
